@@ -221,7 +221,7 @@ class RegionMask:
                 weighted_cutout = cutout * self.data
 
             # fill values outside of the mask but within the bounding box
-            weighted_cutout[self._mask] = fill_value
+            weighted_cutout[self.data == 0] = fill_value
 
             return weighted_cutout
 
